@@ -6,7 +6,7 @@ MAIN = "c15"
 MODULES = ["geom", "pos", "stubs", "step", "c15"]
 ACCESS = None
 DUMP = ["PST"]
-PARALLEL = 2
+PARALLEL = 13
 
 META = {
     "functions_encoded": ["engine::eval::IncrementalEvalFields::{init, set_at, remove_at}", "engine::eval::phased_eval::{phase_value, piece_phase_value_contribution}",
@@ -30,12 +30,19 @@ MANIFEST = {
 }
 
 
+KINDS = ["pawn", "knight", "bishop", "rook", "queen", "king"]
+
+
 def jobs(tier, seed):
     t = 7200 if tier == "thorough" else 3000
-    return [
-        Job("c15_make_step", "accumulators == recomputation preserved by make_move; undo restores", timeout=t, mem_gb=24, witness=False, min_covers=3),
-        Job("c15_null_step", "accumulators == recomputation preserved by null move; undo restores", timeout=t, mem_gb=24, witness=False),
-    ]
+    js = [Job("c15_null_step", "accumulators == recomputation preserved by null move; undo restores", timeout=t, mem_gb=24, witness=False)]
+    for kind in range(6):
+        for side in (0, 1):
+            name = f"c15_make_step_{KINDS[kind]}_{'wb'[side]}"
+            src = f"#[kani::proof]\n#[kani::unwind(66)]\npub fn {name}() {{ c15::make_step({kind}, {side}); }}\n"
+            js.append(Job(name, f"accumulators == recomputation preserved by any {KINDS[kind]} move ({'white' if side == 0 else 'black'}); undo restores", gen=src,
+                          timeout=t, mem_gb=24, witness=False, params={"moving_kind": KINDS[kind], "white_to_move": side == 0}))
+    return js
 
 
 def decode(job, vals):
